@@ -108,6 +108,16 @@ impl Repeat for HashRepeat {
     }
 }
 
+#[cfg(feature = "verif_hooks")]
+impl HashRepeat {
+    /// Verification hook: the repetition table as a sorted list of `(hash, count)` pairs
+    pub fn verif_counts(&self) -> Vec<(u64, usize)> {
+        let mut res: Vec<_> = self.0.iter().map(|(k, v)| (*k, *v)).collect();
+        res.sort_unstable();
+        res
+    }
+}
+
 /// Convenience instantiation of [`BaseMoveChain`] with default repetition table
 pub type MoveChain = BaseMoveChain<HashRepeat>;
 
@@ -127,6 +137,12 @@ pub struct BaseMoveChain<R: Repeat> {
 }
 
 impl<R: Repeat> BaseMoveChain<R> {
+    /// Verification hook: the private repetition table and move stack
+    #[cfg(feature = "verif_hooks")]
+    pub fn verif_parts(&self) -> (&R, &[(Move, RawUndo)]) {
+        (&self.repeat, &self.stack)
+    }
+
     /// Creates an empty move chain, starting with position `b`
     pub fn new(b: Board) -> Self {
         let mut res = BaseMoveChain {
